@@ -1,4 +1,4 @@
-From MP Require Import Text.Import Opts.SolverOpts Corr.C14Corr.
+From MP Require Import Text.Import Opts.SolverOpts Run.Main Corr.C14Corr.
 Local Open Scope string_scope.
 Local Open Scope list_scope.
 Open Scope Z_scope.
@@ -40,4 +40,18 @@ Definition c16_info (text : string) (na : Z) (n : ns) (twopl stab : bool) (optim
       let got := opt_lines info in
       prefix_list got expected &&
       (negb optimal || Nat.eqb (length got) (length expected))
+  end.
+
+
+(* R_main: Solver(argv) as a whole (Run/Main.v solver_new).  impl_class: 0 constructed, 2 SystemExit(2),
+   3 FileNotFoundError, 1 any other exception; for a constructed Solver also its criteria list and the text of
+   get_debug() before any solve (the instance the solver works on) *)
+Definition c16_main (c : cli) (file : option string) (impl_class : Z) (impl_crits : list (crit * list Z))
+           (impl_debug : string) : bool :=
+  match solver_new c file 0 with
+  | SUsage => impl_class =? 2
+  | SNoFile => impl_class =? 3
+  | SBadFile _ => impl_class =? 1
+  | SReady s => (impl_class =? 0) && crits_eqb (o_crits (s_opts s)) impl_crits &&
+                String.eqb (debug_text s) impl_debug
   end.
